@@ -42,7 +42,7 @@ inductive Op where
   | setPlugin (key full : String)
   | get (key : String)
   | registered (full : Bool)
-  deriving Repr
+  deriving Repr, DecidableEq
 
 inductive Out where
   | ok (warned : Bool)                 -- add: whether PluginOverwriteWarning was issued
@@ -101,6 +101,413 @@ def step (r : Registry) : Op → Registry × Out
 
 def run (r : Registry) (ops : List Op) : Registry := ops.foldl (fun s op => (step s op).1) r
 
+/-! ### the dotted keys a history writes (used by `every_plugin_reachable_iff`)
+
+`add_plugin_to_registry` stores the plugin under `fullKey` always and, when the short name is
+already taken, under its plain full name as well (the name the overwrite warning tells the user
+to pass to `set_*_plugin`).  `set_plugin` writes a short name only (it refuses dotted ones). -/
+
+/-- dict writes to dotted keys of one accepted `add_plugin_to_registry` call, in execution order -/
+def addOneWrites (r : Registry) (key : String) (p : Plugin) (id : String) : List (String × Plugin) :=
+  if hasDot key then []
+  else
+    match lookup r key with
+    | some _ => [(fullKey p id, p), (p.fullName, p)]
+    | none => [(fullKey p id, p)]
+
+def addInstWrites (r : Registry) (module name : String) : List String → Nat → List (String × Plugin)
+  | [], _ => []
+  | k :: ks, uid =>
+    match addOne r k ⟨module, name, uid⟩ k with
+    | none => []
+    | some (r', _) => addOneWrites r k ⟨module, name, uid⟩ k ++ addInstWrites r' module name ks (uid + 1)
+
+def stepWrites (r : Registry) : Op → List (String × Plugin)
+  | .add key p id => addOneWrites r key p id
+  | .addInst keys m n u => addInstWrites r m n keys u
+  | _ => []
+
+/-- all writes to dotted keys during a history, oldest first -/
+def runWrites (r : Registry) : List Op → List (String × Plugin)
+  | [] => []
+  | op :: ops => stepWrites r op ++ runWrites (step r op).1 ops
+
+/-- the registrations `add_instantiated_plugin_to_registry` performs before it stops at a dotted key -/
+def acceptedInst (module name : String) : List String → Nat → List (Plugin × String)
+  | [], _ => []
+  | k :: ks, uid => if hasDot k then [] else (⟨module, name, uid⟩, k) :: acceptedInst module name ks (uid + 1)
+
+/-- the accepted registrations of one operation: (plugin, instance identifier) -/
+def acceptedOf : Op → List (Plugin × String)
+  | .add key p id => if hasDot key then [] else [(p, id)]
+  | .addInst keys m n u => acceptedInst m n keys u
+  | _ => []
+
+def accepted (ops : List Op) : List (Plugin × String) := ops.flatMap acceptedOf
+
+/-! ### the three registries and the public wrappers (table regenerated from the source)
+
+`__PluginRegistry` holds three dicts; `megacomplex_registration.py`, `data_io_registration.py`
+and `project_io_registration.py` wrap the functions of `base_registry.py` around one of them.
+`Generated/C19.lean` lists, for every module-level function that touches `__PluginRegistry`, which
+base function it calls with which arguments (`Accessor`), and for every `load_*` / `save_*`
+convenience function the expression it hands to `get_project_io` / `get_data_io` and what it does
+with the object it gets back (`ConvFn`).  `callAccessor` / `dispatch` interpret those rows. -/
+
+structure Registries where
+  megacomplex : Registry := []
+  dataIo : Registry := []
+  projectIo : Registry := []
+  deriving Repr
+
+/-- `__PluginRegistry.<attr>` -/
+def Registries.get (rs : Registries) (attr : String) : Option Registry :=
+  if attr = "megacomplex" then some rs.megacomplex
+  else if attr = "data_io" then some rs.dataIo
+  else if attr = "project_io" then some rs.projectIo
+  else none
+
+def Registries.set (rs : Registries) (attr : String) (r : Registry) : Registries :=
+  if attr = "megacomplex" then { rs with megacomplex := r }
+  else if attr = "data_io" then { rs with dataIo := r }
+  else if attr = "project_io" then { rs with projectIo := r }
+  else rs
+
+/-- argument values of the public functions -/
+inductive Val where
+  | none_
+  | str (s : String)
+  | strs (l : List String)
+  | bool (b : Bool)
+  | cls (module name : String) (uid : Nat)   -- a plugin class (uid: object identity / first instance)
+  | obj                                      -- anything else (model, dataset, …)
+  deriving Repr, DecidableEq
+
+/-- Python truthiness -/
+def Val.truthy : Val → Bool
+  | .none_ => false
+  | .str s => decide (s ≠ "")
+  | .strs l => !l.isEmpty
+  | .bool b => b
+  | .cls _ _ _ => true
+  | .obj => true
+
+/-- how an optional keyword is given at a call site -/
+inductive FlagArg where
+  | absent
+  | lit (b : Bool)
+  | other (src : String)
+  deriving Repr, DecidableEq
+
+/-- an argument expression of a wrapper's call of a `base_registry` function -/
+inductive WArg where
+  | param (name : String)
+  | registry (attr : String)                      -- `__PluginRegistry.<attr>`
+  | none_
+  | str (s : String)
+  | bool (b : Bool)
+  | message (knownFn : String) (full : FlagArg)   -- f-string that formats `knownFn(full_names=…)`
+  | other (src : String)
+  deriving Repr, DecidableEq
+
+/-- a module-level function that touches `__PluginRegistry` -/
+structure Accessor where
+  name : String
+  module : String
+  params : List String                 -- parameters in order (decorator: outer then inner)
+  defaults : List (String × WArg)
+  shape : String                       -- "return" | "expr" | "decorator" | "other"
+  base : String                        -- the function of base_registry.py it calls (exactly one)
+  args : List (String × WArg)          -- keyword → argument (positional ones named by the base signature)
+  deriving Repr, DecidableEq
+
+/-- the expression handed to `get_project_io` / `get_data_io` -/
+inductive FmtExpr where
+  | param (name : String)
+  | none_
+  | str (s : String)
+  | or (a b : FmtExpr)
+  | infer (path : FmtExpr) (needsToExist allowFolder : FlagArg)   -- `infer_file_format(path, …)`
+  | other (src : String)
+  deriving Repr, DecidableEq
+
+/-- one occurrence of the variable the io object is bound to -/
+inductive IoUse where
+  | method (name : String)      -- `io.<name>(…)`
+  | other (what : String)       -- anything else
+  deriving Repr, DecidableEq
+
+/-- a `load_*` / `save_*` convenience function -/
+structure ConvFn where
+  name : String
+  module : String
+  params : List String          -- positional-or-keyword parameters in order
+  getter : String               -- accessor whose result is bound to the io variable ("" if none)
+  registryCalls : Nat           -- calls of accessors / base_registry functions in the whole body
+  fmtExpr : FmtExpr
+  ioUses : List IoUse
+  deriving Repr, DecidableEq
+
+inductive InferErr where
+  | noFile          -- ValueError "There is no file …"
+  | noExtension     -- ValueError "Cannot determine format of file …"
+  deriving Repr, DecidableEq
+
+/-- `os.path.splitext(path)[1]` without its leading dot; `none` when `splitext` finds no extension
+    (no dot in the last path component, or only dots in front of the last dot) -/
+def extOf (path : String) : Option String :=
+  let base := (path.toList.reverse.takeWhile (· ≠ '/'))      -- last component, reversed
+  let extRev := base.takeWhile (· ≠ '.')
+  match base.dropWhile (· ≠ '.') with
+  | [] => none
+  | _ :: preRev => if preRev.any (· ≠ '.') then some (String.ofList extRev.reverse) else none
+
+/-- `infer_file_format(path, needs_to_exist=…, allow_folder=…)`; `isFile` = `os.path.isfile(path)` -/
+def inferFileFormat (path : String) (isFile needsToExist allowFolder : Bool) : Except InferErr String :=
+  if !isFile && needsToExist && !allowFolder then .error .noFile
+  else
+    match extOf path with
+    | some e => .ok (if e = "yml" then "yaml" else e)
+    | none => if allowFolder then .ok "yaml" else .error .noExtension
+
+inductive ApiOut where
+  | base (o : Out)                                  -- outcome of the base_registry function
+  | bool (b : Bool)
+  | unknown (key : String) (known : List String)    -- ValueError of `get_*`, with the names its message lists
+  | inferError (e : InferErr)                       -- ValueError of `infer_file_format`
+  | called (methods : List String) (p : Plugin)     -- methods invoked on the resolved plugin, in order
+  | notModelled (why : String)
+  deriving Repr, DecidableEq
+
+def envLookup (env : List (String × Val)) (n : String) : Option Val :=
+  match env with
+  | [] => none
+  | (k, v) :: rest => if k = n then some v else envLookup rest n
+
+def argLookup (args : List (String × WArg)) (kw : String) : Option WArg :=
+  match args with
+  | [] => none
+  | (k, v) :: rest => if k = kw then some v else argLookup rest kw
+
+/-- bind positional arguments to parameters, fill the rest from literal defaults -/
+def bindParams (defaults : List (String × WArg)) : List String → List Val → Option (List (String × Val))
+  | [], [] => some []
+  | [], _ :: _ => none
+  | p :: ps, v :: vs => (bindParams defaults ps vs).map ((p, v) :: ·)
+  | p :: ps, [] =>
+    match argLookup defaults p with
+    | some (.bool b) => (bindParams defaults ps []).map ((p, .bool b) :: ·)
+    | some (.str s) => (bindParams defaults ps []).map ((p, .str s) :: ·)
+    | some .none_ => (bindParams defaults ps []).map ((p, .none_) :: ·)
+    | _ => none
+
+def evalW (env : List (String × Val)) : WArg → Option Val
+  | .param n => envLookup env n
+  | .none_ => some .none_
+  | .str s => some (.str s)
+  | .bool b => some (.bool b)
+  | _ => none
+
+def evalKw (a : Accessor) (env : List (String × Val)) (kw : String) : Option Val :=
+  (argLookup a.args kw).bind (evalW env)
+
+def Accessor.registryAttr (a : Accessor) : Option String :=
+  match argLookup a.args "plugin_registry" with
+  | some (.registry attr) => some attr
+  | _ => none
+
+def findAccessor (accs : List Accessor) (name : String) : Option Accessor :=
+  accs.find? (fun a => a.name = name)
+
+/-- the list a `known_*` function returns when called as `knownFn(full_names=flag)` -/
+def evalKnown (accs : List Accessor) (rs : Registries) (knownFn : String) (flag : FlagArg) : Option (List String) :=
+  match findAccessor accs knownFn with
+  | none => none
+  | some k =>
+    if k.base ≠ "registered_plugins" ∨ k.shape ≠ "return" then none
+    else
+      let actual : Option (List Val) := match flag with
+        | .absent => some []
+        | .lit b => if k.params = ["full_names"] then some [.bool b] else none
+        | .other _ => none
+      match actual.bind (bindParams k.defaults k.params), k.registryAttr.bind rs.get with
+      | some env, some r =>
+        match evalKw k env "full_names" with
+        | some (.bool full) => some (sortedKeys r full)
+        | _ => none
+      | _, _ => none
+
+def keysOfVal : Val → Option (List String)
+  | .str s => some [s]
+  | .strs l => some l
+  | _ => none
+
+/-- call of one public registry function with positional arguments -/
+def callAccessor (accs : List Accessor) (a : Accessor) (rs : Registries) (args : List Val) :
+    Registries × ApiOut :=
+  match bindParams a.defaults a.params args, a.registryAttr with
+  | some env, some attr =>
+    match rs.get attr with
+    | none => (rs, .notModelled "unknown registry")
+    | some r =>
+      if a.base = "add_plugin_to_registry" then
+        let id : Option String := match argLookup a.args "instance_identifier" with
+          | none => some ""
+          | some w => match evalW env w with
+            | some (.str s) => some s
+            | _ => none
+        match evalKw a env "plugin_register_key", evalKw a env "plugin", id with
+        | some (.str key), some (.cls m n uid), some id =>
+          let res := step r (.add key ⟨m, n, uid⟩ id)
+          (rs.set attr res.1, .base res.2)
+        | _, _, _ => (rs, .notModelled "arguments")
+      else if a.base = "add_instantiated_plugin_to_registry" then
+        match (evalKw a env "plugin_register_keys").bind keysOfVal, evalKw a env "plugin_class" with
+        | some keys, some (.cls m n uid) =>
+          let res := step r (.addInst keys m n uid)
+          (rs.set attr res.1, .base res.2)
+        | _, _ => (rs, .notModelled "arguments")
+      else if a.base = "set_plugin" then
+        match evalKw a env "plugin_register_key", evalKw a env "full_plugin_name" with
+        | some (.str key), some (.str full) =>
+          let res := step r (.setPlugin key full)
+          (rs.set attr res.1, .base res.2)
+        | _, _ => (rs, .notModelled "arguments")
+      else if a.shape ≠ "return" then (rs, .notModelled "result dropped")
+      else if a.base = "get_plugin_from_registry" then
+        match evalKw a env "plugin_register_key", argLookup a.args "not_found_error_message" with
+        | some (.str key), some (.message knownFn flag) =>
+          match (step r (.get key)).2 with
+          | .notFound =>
+            match evalKnown accs rs knownFn flag with
+            | some known => (rs, .unknown key known)
+            | none => (rs, .notModelled "error message")
+          | o => (rs, .base o)
+        | _, _ => (rs, .notModelled "arguments")
+      else if a.base = "is_registered_plugin" then
+        match evalKw a env "plugin_register_key" with
+        | some (.str key) => (rs, .bool (lookup r key).isSome)
+        | _ => (rs, .notModelled "arguments")
+      else if a.base = "registered_plugins" then
+        match evalKw a env "full_names" with
+        | some (.bool full) => (rs, .base (step r (.registered full)).2)
+        | _ => (rs, .notModelled "arguments")
+      else (rs, .notModelled "base function")
+  | _, _ => (rs, .notModelled "signature")
+
+/-- call of a public registry function by name -/
+def callApi (accs : List Accessor) (name : String) (rs : Registries) (args : List Val) : Registries × ApiOut :=
+  match findAccessor accs name with
+  | some a => callAccessor accs a rs args
+  | none => (rs, .notModelled "no such function")
+
+def flagValue (dflt : Bool) : FlagArg → Option Bool
+  | .absent => some dflt
+  | .lit b => some b
+  | .other _ => none
+
+/-- value of the expression handed to the getter; `isFile` = `os.path.isfile`; `dN`, `dF` are the
+    defaults of `needs_to_exist` / `allow_folder` in the signature of `infer_file_format` -/
+def evalFmt (env : List (String × Val)) (isFile : String → Bool) (dN dF : Bool) : FmtExpr → Except ApiOut Val
+  | .param n => match envLookup env n with
+    | some v => .ok v
+    | none => .error (.notModelled "unbound name")
+  | .none_ => .ok .none_
+  | .str s => .ok (.str s)
+  | .or a b => do
+    let va ← evalFmt env isFile dN dF a
+    if va.truthy then .ok va else evalFmt env isFile dN dF b
+  | .infer p nte af => do
+    let vp ← evalFmt env isFile dN dF p
+    match vp, flagValue dN nte, flagValue dF af with
+    | .str path, some n, some f =>
+      match inferFileFormat path (isFile path) n f with
+      | .ok fmt => .ok (.str fmt)
+      | .error e => .error (.inferError e)
+    | _, _, _ => .error (.notModelled "infer_file_format arguments")
+  | .other src => .error (.notModelled src)
+
+def bindPositional : List String → List Val → List (String × Val)
+  | p :: ps, v :: vs => (p, v) :: bindPositional ps vs
+  | _, _ => []
+
+def methodsOf : List IoUse → Option (List String)
+  | [] => some []
+  | .method m :: rest => (methodsOf rest).map (m :: ·)
+  | .other _ :: _ => none
+
+/-- a call `f(args…)` of a convenience function (all arguments positional; the overwrite check of
+    the `save_*` functions — C18 — is assumed to pass): which methods of which plugin get called -/
+def dispatch (accs : List Accessor) (inferDefaults : Bool × Bool) (f : ConvFn) (rs : Registries)
+    (args : List Val) (isFile : String → Bool) : ApiOut :=
+  if f.registryCalls ≠ 1 then .notModelled "registry used more than once"
+  else
+    match evalFmt (bindPositional f.params args) isFile inferDefaults.1 inferDefaults.2 f.fmtExpr with
+    | .error e => e
+    | .ok v =>
+      match findAccessor accs f.getter with
+      | none => .notModelled "getter"
+      | some g =>
+        if g.module ≠ f.module then .notModelled "getter of another module"
+        else
+          match (callAccessor accs g rs [v]).2 with
+          | .base (.found p) =>
+            match methodsOf f.ioUses with
+            | some ms => .called ms p
+            | none => .notModelled "io object used for something else"
+          | o => o
+
+/-! ### `supported_file_extensions_*` -/
+
+/-- `key.endswith("_str")` -/
+def endsWithStr (k : String) : Bool := "_str".toList.reverse.isPrefixOf k.toList.reverse
+
+/-- `base_registry.supported_file_extensions(method_names, keys, get, Base)`: for every key the
+    plugin `get` returns; keys ending in `_str` are skipped; the others are kept when every named
+    method differs from the base class's (`implements p m`; the method names are assumed to be
+    methods of the interface) -/
+def supportedExtensions (keys : List String) (get : String → Option Plugin)
+    (implements : Plugin → String → Bool) (methods : List String) : List String :=
+  keys.filterMap (fun k =>
+    match get k with
+    | some p => if !endsWithStr k && methods.all (implements p) then some ("." ++ k) else none
+    | none => none)
+
+/-- a `supported_file_extensions_*` function: `yield from supported_file_extensions(<methods param>,
+    <keysFn>(full_names=flag), <getFn>, <Base>)` -/
+structure ExtFn where
+  name : String
+  module : String
+  params : List String
+  methodsArg : WArg
+  keysFn : String
+  keysFlag : FlagArg
+  getFn : String
+  baseClass : String
+  deriving Repr, DecidableEq
+
+def callExtFn (accs : List Accessor) (e : ExtFn) (rs : Registries) (implements : Plugin → String → Bool)
+    (methods : List String) : Option (List String) :=
+  match e.params, e.methodsArg with
+  | [mp], .param mp' =>
+    if mp ≠ mp' then none
+    else
+      match evalKnown accs rs e.keysFn e.keysFlag, findAccessor accs e.getFn with
+      | some keys, some g =>
+        some (supportedExtensions keys
+          (fun k => match (callAccessor accs g rs [.str k]).2 with
+            | .base (.found p) => some p
+            | _ => none) implements methods)
+      | _, _ => none
+  | _, _ => none
+
+/-- call of a convenience function by name -/
+def dispatchByName (accs : List Accessor) (convs : List ConvFn) (inferDefaults : Bool × Bool) (name : String)
+    (rs : Registries) (args : List Val) (isFile : String → Bool) : ApiOut :=
+  match convs.find? (fun f => f.name = name) with
+  | some f => dispatch accs inferDefaults f rs args isFile
+  | none => .notModelled "no such function"
+
 /-! ### driver -/
 open Glotaran.Proto
 
@@ -128,14 +535,90 @@ def parseOp : List Tree → Option Op
   | [.atom "registered", b] => do some (.registered (← b.bool?))
   | _ => none
 
-/-- protocol: `reset` starts from the empty registry; every other line is an `Op`;
-    after every op the driver also prints nothing else (lookups are explicit ops). -/
-def driverStep (r : Registry) (ts : List Tree) : Registry × String :=
+def showWrites (ws : List (String × Plugin)) : String :=
+  showList (ws.map (fun w => s!"[{encodeStr w.1},{showPlugin w.2}]"))
+
+def showApiOut : ApiOut → String
+  | .base o => showOut o
+  | .bool b => s!"bool {showBool b}"
+  | .unknown k known => s!"err unknown {encodeStr k} {showStrs known}"
+  | .inferError .noFile => "err no-file"
+  | .inferError .noExtension => "err no-extension"
+  | .called ms p => s!"called {showStrs ms} {showPlugin p}"
+  | .notModelled why => s!"not-modelled {encodeStr why}"
+
+def parseVal : Tree → Option Val
+  | .atom "n" => some .none_
+  | .atom "o" => some .obj
+  | .atom "T" => some (.bool true)
+  | .atom "F" => some (.bool false)
+  | .list [.atom "s", v] => v.str?.map .str
+  | .list [.atom "l", vs] => vs.strs?.map .strs
+  | .list [.atom "c", m, n, u] => do some (.cls (← m.str?) (← n.str?) (← u.nat?))
+  | _ => none
+
+structure DState where
+  reg : Registry := []          -- the registry dict of the base-level protocol lines
+  rs : Registries := {}         -- `__PluginRegistry` of the `api` / `dispatch` lines
+
+/-- protocol: `reset` starts from empty registries; `add`/`addinst`/`set`/`get`/`registered` are
+    `Op`s on a bare registry dict; `wtrace <op>` prints the dotted-key writes the op would make
+    (state unchanged); `api <function> [values]` calls a public registry function through the
+    regenerated table; `dispatch <function> [values] [paths that are files]` calls a convenience
+    function; `infer <path> <isfile> <needs_to_exist> <allow_folder>`; `obs [keys]`;
+    `supported <function> [methods] [[uid,[overridden methods]]…]`. -/
+def driverStep (accs : List Accessor) (convs : List ConvFn) (exts : List ExtFn) (inferDefaults : Bool × Bool)
+    (st : DState) (ts : List Tree) : DState × String :=
   match ts with
-  | [.atom "reset"] => ([], "reset")
+  | [.atom "reset"] => ({}, "reset")
+  | [.atom "obs", ks] =>
+    -- registered_plugins(full) / (short) and a lookup of every listed key, in one line
+    match ks.strs? with
+    | none => (st, "bad-op")
+    | some keys =>
+      let res := keys.map (fun k => match (step st.reg (.get k)).2 with
+        | .found p => showPlugin p
+        | _ => "-")
+      (st, s!"obs {showOut (step st.reg (.registered true)).2} {showOut (step st.reg (.registered false)).2} {showList res}")
+  | [.atom "supported", fn, ms, .list impl] =>
+    -- impl: [[uid,[methods the plugin with that uid overrides]],…]
+    match fn.str?, ms.strs?, impl.mapM (fun t => match t with
+        | .list [u, l] => do some ((← u.nat?), (← l.strs?))
+        | _ => none) with
+    | some name, some methods, some table =>
+      match exts.find? (fun e => e.name = name) with
+      | none => (st, "not-modelled no-such-function")
+      | some e =>
+        match callExtFn accs e st.rs (fun p m => table.any (fun row => row.1 = p.uid && row.2.contains m)) methods with
+        | some l => (st, s!"exts {showStrs l}")
+        | none => (st, "not-modelled table-row")
+    | _, _, _ => (st, "bad-op")
+  | .atom "wtrace" :: rest =>
+    match parseOp rest with
+    | none => (st, "bad-op")
+    | some op => (st, s!"writes {showWrites (stepWrites st.reg op)}")
+  | [.atom "api", fn, .list vals] =>
+    match fn.str?, vals.mapM parseVal with
+    | some name, some args =>
+      let res := callApi accs name st.rs args
+      ({ st with rs := res.1 }, showApiOut res.2)
+    | _, _ => (st, "bad-op")
+  | [.atom "dispatch", fn, .list vals, files] =>
+    match fn.str?, vals.mapM parseVal, files.strs? with
+    | some name, some args, some fs =>
+      (st, showApiOut (dispatchByName accs convs inferDefaults name st.rs args (fun p => fs.contains p)))
+    | _, _, _ => (st, "bad-op")
+  | [.atom "infer", p, isf, nte, af] =>
+    match p.str?, isf.bool?, nte.bool?, af.bool? with
+    | some path, some i, some n, some a =>
+      match inferFileFormat path i n a with
+      | .ok fmt => (st, s!"ok {encodeStr fmt}")
+      | .error .noFile => (st, "err no-file")
+      | .error .noExtension => (st, "err no-extension")
+    | _, _, _, _ => (st, "bad-op")
   | _ =>
     match parseOp ts with
-    | none => (r, "bad-op")
-    | some op => let (r', o) := step r op; (r', showOut o)
+    | none => (st, "bad-op")
+    | some op => let (r', o) := step st.reg op; ({ st with reg := r' }, showOut o)
 
 end Glotaran.C19
